@@ -244,7 +244,8 @@ def C10.HeapExtends (st st' : St) : Prop :=
   st.frames.size ≤ st'.frames.size ∧
   ∀ i (h : i < st.frames.size) (h' : i < st'.frames.size),
     (st'.frames[i]).store = (st.frames[i]).store ∧ (st'.frames[i]).outer = (st.frames[i]).outer ∧
-    (st'.frames[i]).depth = (st.frames[i]).depth ∧ (st'.frames[i]).cacheKey = (st.frames[i]).cacheKey
+    (st'.frames[i]).depth = (st.frames[i]).depth ∧ (st'.frames[i]).cacheKey = (st.frames[i]).cacheKey ∧
+    (st'.frames[i]).function = (st.frames[i]).function
 
 /-- what the user sees of an input: output, value, error flag, panic kind -/
 def C10.visible (r : Except String InputObs) : Except String (Grol.Wire.Bytes × String × Bool × String) :=
